@@ -3,6 +3,9 @@
 import json, os, re, glob
 ROOT = os.path.dirname(os.path.dirname(os.path.abspath(__file__)))
 NOTES = {
+ "C16-b": "written as a second sample for C17; the clause lives in take_segments and is reported by the C16 check (C17's stays silent)",
+ "C12-b": "fires through an instance count (query_pairs replaced by hand-written parsing); form-decoding is declared undecided",
+
  "C22-b": "initially MISSED (no clause made the stream-end arm call address_lookup_finished unconditionally); added: terminal-always-finishes",
  "C11-b": "fired first only because the parser call moved into a closure; client clause rewritten as a parsed-only source walk",
  "C18-b": "fired first for the helper extraction alone; rule rewritten as byte-range table agreement",
